@@ -26,11 +26,15 @@
 //                 text-less elements indented with newline + blanks, docpath = "doc" (the parser adds a root
 //                 attribute docpath=doc, which the oracle expects in that layout).
 //
-// part=bytes   every string of length <= maxlen over {< > / a = " space ! - &}; every prefix and every single-byte
+// part=bytes   every string of length <= maxlen over {< > / a = " space ! - &} (and, with ltlen=n > maxlen, every string of
+//              length n over the same alphabet that begins with '<'); every prefix and every single-byte
 //              substitution (from SUBST) of the seed documents (kitchen sink with declaration, comment, CDATA, both
 //              quote kinds, references of every form, a failing xi:include; element nesting at MaxDepth = 128 and at
 //              MaxDepth + 1; a 4 KB document).  Oracle: Factory returns a tree (which is then walked and deleted) or
 //              nullptr, or throws XMLError / std::exception; ASan + UBSan silent; the driver's watchdog bounds time.
+//              For strings of length <= 4 and for every prefix of a seed the parse is repeated with the dead stack
+//              pre-filled with 'a', '\n', '<', '"': the result (tree dump + line count, or exception text) must not
+//              depend on the fill (catches reads of never-written stack memory, which the sanitizers do not see).
 #include <fix8/f8includes.hpp>
 #include <unordered_set>
 #include "vh.hpp"
@@ -518,7 +522,24 @@ static void walk(const XmlElement *e, long long& n, long long& bytes)
 	std::string v; e->GetAttr("x", v); e->find(e->GetTag()); e->find("//" + e->GetTag());
 	for (auto c = e->begin(); c != e->end(); ++c) walk(*c, n, bytes);
 }
-static void run_bytes_case(vh::Run& R, const std::string& in, const std::string& replay)
+// The result of a parse must be a function of the input bytes.  For short inputs and for every truncated seed the
+// case is repeated with the dead stack below the caller pre-filled with different byte values; a result that changes
+// with the fill depends on memory the parser never wrote (an uninitialised read that ASan/UBSan cannot see).
+static void __attribute__((noinline)) fill_stack(unsigned char b)
+{ char buf[1 << 16]; memset(buf, b, sizeof buf); asm volatile("" : : "r"(buf) : "memory"); }
+static std::string __attribute__((noinline)) parse_canon(const std::string& in, const char *docpath)
+{
+	std::istringstream is(in); std::ostringstream os;
+	try {
+		XmlElement *e = XmlElement::Factory(is, docpath);
+		if (!e) return "nullptr";
+		os << "tree lines=" << e->GetLineCnt() << " errors=" << e->GetErrorCnt() << " maxdepth=" << e->GetMaxDepth() << "\n" << *e; delete e;
+	}
+	catch (std::exception& x) { os << "exception: " << x.what(); }
+	catch (...) { os << "foreign exception"; }
+	return os.str();
+}
+static void run_bytes_case(vh::Run& R, const std::string& in, const std::string& replay, bool stackdiff)
 {
 	R.begin_case(replay);
 	if (in.find('<') != std::string::npos) ++R.nontrivial;
@@ -534,6 +555,23 @@ static void run_bytes_case(vh::Run& R, const std::string& in, const std::string&
 	catch (std::exception& x) { o = "std-exception"; if (R.verbose()) fprintf(stderr, "threw std::exception: %s\n", x.what()); }
 	catch (...) { o = "foreign-exception"; R.viol("tree-or-parse-error", "throws-non-exception-object", {}, replay, "threw an object not derived from std::exception", "tree, nullptr or parse error"); }
 	R.outcome(o);
+	if (stackdiff) {
+		static const unsigned char fills[] = { 'a', '\n', '<', '"' };
+		std::string first;
+		for (size_t i = 0; i < sizeof fills; ++i) {
+			fill_stack(fills[i]);
+			const std::string r = parse_canon(in, nullptr);
+			if (R.verbose()) fprintf(stderr, "dead stack filled with 0x%02x: %s\n", fills[i], vh::show(r).c_str());
+			if (i == 0) first = r;
+			else if (r != first) {
+				std::vector<std::string> tags; if (in.empty()) tags.push_back("input_empty");
+				R.viol("memory-safe-and-total", "result-depends-on-uninitialised-memory", tags, replay, "with the dead stack filled with 0x" + vh::hex(std::string(1, (char)fills[i])) + ": " + r,
+					"the same result as with the dead stack filled with 0x61: " + first, "input: " + vh::show(in));
+				R.outcome("result-depends-on-stack-garbage"); break;
+			}
+		}
+		R.counters["stack_fill_differentials"] += 1;
+	}
 }
 static int bytes_main(vh::Run& R)
 {
@@ -549,17 +587,22 @@ static int bytes_main(vh::Run& R)
 		else if (kind == "m" && atoi(a.c_str()) < (int)sd.size()) { in = sd[atoi(a.c_str())]; in[atoi(b.c_str()) % in.size()] = (char)SUBST_FULL[atoi(c.c_str()) % sizeof SUBST_FULL]; }
 		else { fprintf(stderr, "bad case string\n"); return 2; }
 		fprintf(stderr, "input (%zu bytes): %s\n", in.size(), vh::show(in).c_str());
-		run_bytes_case(R, in, R.single_case); R.finish(); return R.violations ? 1 : 0;
+		run_bytes_case(R, in, R.single_case, kind == "p" || (kind == "s" && in.size() <= 4)); R.finish(); return R.violations ? 1 : 0;
 	}
 	unsigned long long id = 0; bool done = true;
 	// all strings, shortest first, lexicographic in BALPHA order; one id per string
-	for (int len = 0; len <= maxlen && done; ++len) {
-		const long long cnt = ipow(10, len); std::string s(len, '<');
+	// (then, when ltlen is given, the strings of length ltlen whose first byte is '<')
+	const int ltlen = (int)R.args.num("ltlen", 0);
+	for (int len = 0; len <= std::max(maxlen, ltlen) && done; ++len) {
+		if (len > maxlen && len != ltlen) continue;
+		const long long cnt = len > maxlen ? ipow(10, len - 1) : ipow(10, len); std::string s(len, '<');
 		for (long long i = 0; i < cnt; ++i, ++id) {
 			if (!R.mine(id)) continue;
 			if ((i & 0xfff) == 0 && R.out_of_time()) { done = false; break; }
 			long long q = i; for (int k = len - 1; k >= 0; --k) { s[k] = BALPHA[q % 10]; q /= 10; }
-			run_bytes_case(R, s, "s," + vh::hex(s));
+			static const char HX[] = "0123456789abcdef"; std::string rp("s,"); rp.reserve(2 + 2 * len);
+			for (unsigned char ch : s) { rp += HX[ch >> 4]; rp += HX[ch & 15]; }
+			run_bytes_case(R, s, rp, len <= 4);
 			if (len == maxlen && i == 1234) R.sample("s," + vh::hex(s), "string " + vh::show(s));
 		}
 	}
@@ -568,7 +611,7 @@ static int bytes_main(vh::Run& R)
 		for (size_t l = 0; l <= d.size(); ++l, ++id) {
 			if (!R.mine(id)) continue;
 			if (R.out_of_time()) { done = false; break; }
-			run_bytes_case(R, d.substr(0, l), "p," + std::to_string(k) + "," + std::to_string(l));
+			run_bytes_case(R, d.substr(0, l), "p," + std::to_string(k) + "," + std::to_string(l), true);
 		}
 		for (size_t pos = 0; pos < d.size() && done; ++pos)
 			for (int b = 0; b < nsub; ++b, ++id) {
@@ -577,7 +620,7 @@ static int bytes_main(vh::Run& R)
 				int fi = 0; while (SUBST_FULL[fi] != sub[b]) ++fi;
 				if ((unsigned char)d[pos] == sub[b]) { continue; }
 				std::string in(d); in[pos] = (char)sub[b];
-				run_bytes_case(R, in, "m," + std::to_string(k) + "," + std::to_string(pos) + "," + std::to_string(fi));
+				run_bytes_case(R, in, "m," + std::to_string(k) + "," + std::to_string(pos) + "," + std::to_string(fi), false);
 				if (k == 0 && pos == 60 && b == 0) R.sample("m,0,60," + std::to_string(fi), "seed 0 with byte 60 replaced by '<'");
 			}
 	}
